@@ -135,6 +135,7 @@ func TestC12(t *testing.T) {
 		map[string]float64{"jail-scenario": 0.4, "proposer-with-delegators": 0.3, "unjail-of-jailed-node": 0.25, "delegator-burst": 0.2, "multi-unstake-same-session": 0.2},
 		func(rt *rapid.T, c *harness.Case) {
 			w := chain.GenWorld(rt)
+			w.GovUpgrades = true // FEATURE upgrades (merging and re-listing scheduled features) are part of the chain data
 			burst := rapid.IntRange(0, 2).Draw(rt, "delegatorBurst") == 0
 			if burst {
 				// node0 gets 4-8 reward delegators whose accounts do not exist yet and proposes every block: its first fee
